@@ -29,6 +29,10 @@ D = 'contracts.ber_decoder'
 
 ENC_FRAMING = [(E, 'ber.encoder::AbstractItemEncoder.encodeTag'), (E, 'ber.encoder::AbstractItemEncoder.encodeLength'),
                (E, 'ber.encoder::AbstractItemEncoder.encode')]
+ENC_CONTENT = [(E, 'ber.encoder::BooleanEncoder.encodeValue'), (E, 'cer.encoder::BooleanEncoder.encodeValue'),
+               (E, 'ber.encoder::NullEncoder.encodeValue'), (E, 'ber.encoder::IntegerEncoder.encodeValue'),
+               (E, 'ber.encoder::ObjectIdentifierEncoder.encodeValue'),
+               (E, 'ber.encoder::SequenceEncoder.encodeValue[value-object]')]
 INTS = [(IN, 'compat.integer::to_bytes[signed]'), (IN, 'compat.integer::to_bytes[unsigned,length]'),
         (IN, 'compat.integer::from_bytes[signed]'), (IN, 'compat.integer::from_bytes[unsigned]')]
 READS = [(ST, 'codec.streaming::readFromStream[complete]'), (ST, 'codec.streaming::readFromStream[partial]'),
@@ -40,12 +44,18 @@ DEC_SIMPLE = [(D, 'ber.decoder::IntegerPayloadDecoder.valueDecoder[complete]'),
               (D, 'ber.decoder::IntegerPayloadDecoder.valueDecoder[partial]'),
               (D, 'ber.decoder::NullPayloadDecoder.valueDecoder[complete]'),
               (D, 'ber.decoder::BooleanPayloadDecoder._createComponent'),
-              (D, 'ber.decoder::RawPayloadDecoder.indefLenValueDecoder')]
+              (D, 'ber.decoder::RawPayloadDecoder.indefLenValueDecoder'),
+              (D, 'ber.decoder::ObjectIdentifierPayloadDecoder.valueDecoder[complete]'),
+              (D, 'ber.decoder::OctetStringPayloadDecoder.valueDecoder[complete]'),
+              (D, 'ber.decoder::BitStringPayloadDecoder.valueDecoder[complete]')]
 DEC_REGIONS = [(D, 'ber.decoder::SingleItemDecoder.__call__@stDecodeLength[complete]'),
                (D, 'ber.decoder::SingleItemDecoder.__call__@stDecodeLength[partial]'),
                (D, 'ber.decoder::SingleItemDecoder.__call__@stDecodeTag[outermost,complete]'),
                (D, 'ber.decoder::SingleItemDecoder.__call__@stDecodeTag[inner,complete]'),
-               (D, 'ber.decoder::SingleItemDecoder.__call__@stDecodeTag[outermost,partial]')]
+               (D, 'ber.decoder::SingleItemDecoder.__call__@stDecodeTag[outermost,partial]'),
+               (D, 'ber.decoder::SingleItemDecoder.__call__@stDecodeValue[complete]'),
+               (D, 'ber.decoder::SingleItemDecoder.__call__@allowEoo[complete]'),
+               (D, 'ber.decoder::SingleItemDecoder.__call__@allowEoo[partial]')]
 U2 = 'shared universe U2 (quick: ~800 (type, value) pairs; thorough: full leaf product x tag stacks)'
 PAPER_INDUCTION = ('structural induction over the type universe (dynamic dispatch through TAG_MAP/TYPE_MAP and the '
                    'univ.py object model): premises are the per-function obligations and the dispatch-table '
@@ -66,7 +76,7 @@ PROPS['C01'] = prop(
                'the INTEGER/BOOLEAN/NULL payload decoders are proved for all inputs against X.690 spec functions; the '
                'round trip over the type universe composes them on paper; decode(encode(v, mode), T) == v is a labelled '
                'bounded stand-in over U2 x 8 encoder modes.',
-    contracts=ENC_FRAMING + INTS + DEC_SIMPLE + DEC_REGIONS + READS[:1], tables=['dispatch'],
+    contracts=ENC_FRAMING + ENC_CONTENT + INTS + DEC_SIMPLE + DEC_REGIONS + READS[:1], tables=['dispatch'],
     standins=[dict(module='standins.codec_checks', checks='rt-ber', bound=U2 + ' x 8 modes (def/indef x chunk 0,1,3,7,1000)')],
     explanation='contracts on framing + content leaf functions (proved), dispatch tables (complete evaluation), '
                 'round trip on entry points (bounded)')
@@ -75,7 +85,7 @@ PROPS['C02'] = prop(
     level_text='Same premises as C01 with the fixed CER/DER modes; decoder tables of cer/der are proved (by complete '
                'evaluation) to differ from BER only by stricter codecs, so whenever several decoders accept they run '
                'the same content decoders; the five (encoder, decoder) pairs are a bounded stand-in over U2.',
-    contracts=ENC_FRAMING + INTS + DEC_SIMPLE + DEC_REGIONS, tables=['dispatch', 'decoder-tables'],
+    contracts=ENC_FRAMING + ENC_CONTENT + INTS + DEC_SIMPLE + DEC_REGIONS, tables=['dispatch', 'decoder-tables'],
     standins=[dict(module='standins.codec_checks', checks='rt-canon', bound=U2 + ' incl. strings of 999/1000/1001/2001 octets')],
     explanation='contracts (proved) + finite tables (complete) + five codec pairs (bounded)')
 
@@ -83,7 +93,7 @@ PROPS['C03'] = prop(
     level_text='Contracts on the real identifier/length/framing/integer functions are discharged for all inputs against '
                'X.690 spec functions; whole-encoder byte equality with an independent DER/CER reference is a labelled '
                'bounded stand-in; composition over the type universe is a paper induction.',
-    contracts=ENC_FRAMING + INTS[:1], tables=['dispatch'],
+    contracts=ENC_FRAMING + ENC_CONTENT + INTS[:1], tables=['dispatch'],
     standins=[dict(module='standins.codec_checks', checks='der-twin,cer-twin,ber-read', bound=U2 + ', 8 BER encoder modes')],
     explanation='machine-checked contracts on the real framing and content functions against the X.690 spec '
                 'functions; entry points additionally checked on a bounded universe against an independent DER/CER '
@@ -131,7 +141,7 @@ PROPS['C09'] = prop(
                'payload decoders are proved against the spec relation; the remaining BER choice points (length forms, '
                'segmentation trees, SET order, DEFAULT presence) are exercised by a nondeterministic independent '
                'reference encoder as a bounded stand-in.',
-    contracts=INTS[2:] + DEC_SIMPLE[:4] + DEC_REGIONS, tables=['dispatch'],
+    contracts=INTS[2:] + DEC_SIMPLE[:4] + DEC_SIMPLE[6:] + DEC_REGIONS, tables=['dispatch'],
     standins=[dict(module='standins.codec_checks', checks='ber-forms', bound=U2 + ' x up to 60 systematically enumerated BER forms per value')],
     explanation='content decoders against the BER relation (proved); enumerated BER forms (bounded)')
 
@@ -153,7 +163,7 @@ PROPS['C13'] = prop(
                'base-128 digits), one header per tag from innermost to outermost with the constructed bit set for wrappers '
                'and constructed content only (iteration contract of encode). Tag algebra and accept/reject are covered by a '
                'bounded stand-in until their contracts are built.',
-    contracts=ENC_FRAMING + DEC_REGIONS[2:], tables=['dispatch'],
+    contracts=ENC_FRAMING + DEC_REGIONS[2:5], tables=['dispatch'],
     standins=[dict(module='standins.tag_checks', checks='tag-stacks', bound='depth 0..3 stacks over 3 classes x 9 numbers x implicit/explicit on 4 base types; single-position perturbations')],
     explanation='identifier/framing contracts (proved); tag stacks and perturbations (bounded)')
 
@@ -164,7 +174,7 @@ PROPS['C15'] = prop(
                'every unambiguous type; strict BOOLEAN; primitive-only BIT/OCTET STRING; supportIndefLength False and '
                'wired in; every nested element goes through the same single-item decoder). Non-canonical rewrites of U2 '
                'encodings are an additional bounded stand-in.',
-    contracts=DEC_REGIONS[:2], tables=['decoder-tables'],
+    contracts=DEC_REGIONS[:2] + DEC_SIMPLE[6:7], tables=['decoder-tables'],
     standins=[dict(module='standins.codec_checks', checks='noncanonical', bound=U2 + ' DER encodings x every element x 3 rewrites x with/without spec')],
     paper=[], explanation='finite table obligations, complete evaluation')
 
@@ -210,8 +220,9 @@ PROPS['C10'] = prop(
     level_text='Constraint evaluation admits exactly the denotation (C14 contracts, proved per class); payload decoders build '
                'their result through _createComponent (contracts); that every accepted input yields a complete, well-typed, '
                're-encodable value is a bounded stand-in over mutated encodings.',
-    contracts=CONSTRAINTS + DEC_SIMPLE[:4], tables=['dispatch'],
-    standins=[dict(module='standins.object_checks', checks='accepts-wellformed', bound=U2 + ' x 13 mutations x 2 decoders')],
+    contracts=CONSTRAINTS + DEC_SIMPLE[:4] + DEC_SIMPLE[7:], tables=['dispatch'],
+    standins=[dict(module='standins.object_checks', checks='accepts-wellformed', bound=U2 + ' x 13 mutations x 2 decoders'),
+              dict(module='standins.constraint_checks', checks='derivation', bound='10 derivation chains x values -3..12: derived type admits exactly the conjunction')],
     explanation='constraint and payload contracts (proved); accepted => well-formed (bounded)')
 
 PROPS['C12'] = prop(
@@ -220,7 +231,7 @@ PROPS['C12'] = prop(
                'decoder keep their invariant on every store (tag region contracts), so suspended decoders sharing the '
                'singleton see consistent entries. Thread schedules are outside the family (stated limit). Snapshot '
                'comparison around codec calls, interleaved decoders and logging on/off are a bounded stand-in.',
-    contracts=DEC_REGIONS[2:] + READS[4:], tables=['log-blocks', 'protocol'],
+    contracts=DEC_REGIONS[2:5] + READS[4:], tables=['log-blocks', 'protocol'],
     standins=[dict(module='standins.object_checks', checks='purity', bound=U2 + ' x (4 encoders, 2 decodes, 3 interleaved streaming decoders, logging on)')],
     paper=['interleavings of suspended generators commute because all decoder state is in generator locals and the per-call '
            'stream (frame argument); data-race freedom under threads rests on CPython atomic dict/attribute stores (trusted, '
@@ -272,6 +283,31 @@ PROPS['C20'] = prop(
                    bound='4 (quick) / 8 dates x 6 microsecond values x 14 offsets x 2 types; 3 x 14 x 5 grammar strings')],
     explanation='UTC-refusal contract (proved); conversions on the grid (bounded)')
 
+ITEM_ENC = [(E, 'ber.encoder::SingleItemEncoder.__call__')]
+for _p in ('C01', 'C02', 'C03'):
+    PROPS[_p]['contracts'] = PROPS[_p]['contracts'] + ITEM_ENC
+PROPS['C02']['level_text'] += (' The fixed modes are a discharged contract on the real SingleItemEncoder.__call__: with the '
+                               'class attributes of the cer/der subclasses set, the codec below never sees the caller\'s '
+                               'defMode/maxChunkSize.')
+# C16: the schemaless decoder picks its codec from the recovered tag set -- the tag region and its cache invariant
+PROPS['C16']['contracts'] = PROPS['C16']['contracts'] + DEC_REGIONS[2:5]
+BS = 'contracts.base'
+BASE = [(BS, 'type.base::SimpleAsn1Type.__init__'), (BS, 'type.base::SimpleAsn1Type.clone'),
+        (BS, 'type.base::SimpleAsn1Type.subtype')]
+for _p in ('C14', 'C10'):
+    PROPS[_p]['contracts'] = PROPS[_p]['contracts'] + BASE
+    PROPS[_p]['tables'] = PROPS[_p]['tables'] + ['value-funnel']
+PROPS['C12']['contracts'] = PROPS['C12']['contracts'] + BASE[1:]
+TG = 'contracts.tag'
+TAGS = [(TG, 'type.tag::TagSet.tagImplicitly'), (TG, 'type.tag::TagSet.tagExplicitly')]
+PROPS['C13']['contracts'] = PROPS['C13']['contracts'] + TAGS
+PROPS['C13']['level_text'] = ('Identifier octets equal X.690 8.1.2 for every class/format/number (encodeTag) and are parsed back by '
+                              'the tag region of the decoder (any long form, base-128 value, cache invariant); one header per tag from '
+                              'innermost to outermost with the constructed bit for wrappers and constructed content only (iteration '
+                              'contract of encode); the tag algebra is proved on the real TagSet methods: implicit tagging replaces '
+                              'exactly the outermost tag and keeps its form, explicit tagging adds one constructed tag and refuses '
+                              'UNIVERSAL. Accept/reject against perturbed types and whole stacks are a bounded stand-in.')
+PROPS['C04']['contracts'] = PROPS['C04']['contracts'] + ENC_CONTENT[5:]
 UN = 'contracts.univ_native'
 CHOICE = [(UN, 'type.univ::Choice.setComponentByPosition'), (UN, 'type.univ::Choice.clear'), (UN, 'type.univ::Choice.reset')]
 PROPS['C19']['contracts'] = CHOICE
@@ -329,7 +365,34 @@ def conc_encode(oid, m):
                      'supportIndefLenMode': sup, 'defMode': dm}}
 
 
+def conc_item_encoder(oid, m):
+    opts = {k: (bool(v[1]) if k in ('defMode', 'ifNotEmpty') else v[1]) for k, v in m['options']['dict'].items() if v[0]}
+    if m.get('fixedChunk') is not None and 'maxChunkSize' not in opts:
+        opts['maxChunkSize'] = int(m['fixedChunk']) + 7      # any caller value different from the fixed one
+    if m.get('fixedDef') is not None and 'defMode' not in opts:
+        opts['defMode'] = not m['fixedDef']
+    return {'runner': 'replayers.encoder:item_encoder_modes',
+            'args': {'fixedDef': m.get('fixedDef'), 'fixedChunk': m.get('fixedChunk'), 'options': opts}}
+
+
+def conc_constraint_add(oid, m):
+    n = len(m['self']['fields']['_values'])
+    return {'runner': 'replayers.types:constraint_add', 'args': {'n': n}}
+
+
+def conc_simple_derive(oid, m):
+    method = 'clone' if '.clone#' in oid else 'subtype'
+    if 'source-unchanged' in oid:
+        return {'runner': 'replayers.types:simple_derive_frame', 'args': {'method': method}}
+    return {'runner': 'replayers.types:simple_derive_funnel', 'args': {'method': method}}
+
+
 CONCRETISERS = {
+    'type.base::SimpleAsn1Type.clone': conc_simple_derive,
+    'type.base::SimpleAsn1Type.subtype': conc_simple_derive,
+    'type.constraint::AbstractConstraintSet.__add__[1]': conc_constraint_add,
+    'type.constraint::AbstractConstraintSet.__add__[2]': conc_constraint_add,
+    'ber.encoder::SingleItemEncoder.__call__': conc_item_encoder,
     'ber.encoder::AbstractItemEncoder.encodeTag': conc_encode_tag,
     'ber.encoder::AbstractItemEncoder.encodeLength': conc_encode_length,
     'compat.integer::to_bytes[signed]': conc_to_bytes,
